@@ -513,7 +513,27 @@ def check_structure(case):
             if W.min() < b.wmin - 4 * ulp or W.max() > b.wmax + 4 * ulp:
                 raise Violation("band", f"frame {k}: subframe wavelengths [{W.min()!r}, {W.max()!r}] leave the "
                                         f"source band [{b.wmin!r}, {b.wmax!r}]")
-            if not s.is_regular():
+            # regularity decided here, from the vertices (not by asking the package): some vertex has
+            # both the smallest time and the smallest wavelength, some vertex both the largest
+            mine = bool(np.any((T == T.min()) & (W == W.min())) and np.any((T == T.max()) & (W == W.max())))
+            if bool(s.is_regular()) != mine:
+                raise Violation("is-regular", f"frame {k}: is_regular() says {bool(s.is_regular())} for vertices "
+                                              f"t={T.tolist()}, lambda={W.tolist()}; by the definition it is {mine}")
+            # ... and is_regular() itself on a hand-made subframe that is usually *not* regular (the same
+            # vertices with the wavelengths in reverse order): it is what subbounds() relies on
+            from scippneutron.tof import chopper_cascade as _cc
+            import scipp as _sc
+
+            W2 = W[::-1].copy()
+            manual = _cc.Subframe(time=_sc.array(dims=["vertex"], values=T, unit="s"),
+                                  wavelength=_sc.array(dims=["vertex"], values=W2, unit="angstrom"))
+            mine2 = bool(np.any((T == T.min()) & (W2 == W2.min())) and np.any((T == T.max()) & (W2 == W2.max())))
+            if bool(manual.is_regular()) != mine2:
+                raise Violation("is-regular", f"is_regular() says {bool(manual.is_regular())} for the hand-made subframe "
+                                              f"t={T.tolist()}, lambda={W2.tolist()}; by the definition it is {mine2}")
+            if not mine2:
+                labs.append("manual-irregular-subframe")
+            if not mine:
                 raise Violation(
                     "irregular", f"frame {k} at {fr.distance.value} {fr.distance.unit}: subframe is not regular "
                     f"(extreme time and wavelength at different vertices): t={T.tolist()}, lambda={W.tolist()}")
